@@ -175,10 +175,27 @@ def run(chk):
 
             # ---- R6 ---------------------------------------------------------------
             check_r6(chk, F, cls)
+    # ---- R7 the propagation sentence -------------------------------------------------------------------------------
+    # "propagating those partials reproduces the analytic gradients": with R1/R2 (the partials are the partial
+    # derivatives of the energy) this holds iff the propagation is the exact adjoint of the construction map - the
+    # obligations of C05 for the same class, re-derived here on the current tree modulo the coefficient rows c_0..c_{s-1},
+    # which the energy partials never populate (R1).
+    from .. import core
+    from . import c05
+    for short in SPLINES:
+        for cls in alg_classes(F, short, ("update", "propagateGrad")):
+            sub = core.Check("C05", chk.tier, chk.root)
+            M7 = spline_model(F, cls)
+            c05.check_class(sub, F, M7, short, zero_rows=tuple(range(M7.s)))
+            rel = [o for o in sub.obs if o["rule"] in ("C05-R1", "C05-R2", "C05-R3", "C05-R4", "C05-R5")]
+            bad = [o for o in rel if not o["ok"]]
+            chk.ob("C06-R7", "%s: propagating the energy partials reproduces the analytic gradients (propagation is the exact adjoint)" % cls, len(rel) >= 20 and not bad,
+                   bad[0]["where"] if bad else "", "%d adjoint obligations (C05-R1..R5); first failing: %s" % (len(rel), bad[0]["instance"] if bad else "-"), construct=cls + "/propagation-corollary")
+    chk.floor("C06-R7", 4)
     chk.floor("C06-R1", 3 * 3 + 4 + 6 + 8)
     chk.floor("C06-R5", 2 * (2 + 3 + 4))
     chk.floor("C06-R3", 2 + 3 + 4)
-    chk.not_decided = ["rounding; totals assume the spline is the minimiser (C02); 'propagating the partials reproduces the analytic gradients' is the corollary C05 & R1 & R2"]
+    chk.not_decided = ["rounding; totals assume the spline is the minimiser (C02); R7 decides the propagation sentence through the adjoint obligations, not by comparing the two gradient vectors numerically"]
     chk.trusted.append("first-variation / conserved-quantity formulas validated against the dense symbolic single-segment minimiser (spec.self_check)")
 
 
